@@ -76,8 +76,18 @@ def log(msg):
     sys.stderr.flush()
 
 
+def repo_cflags():
+    """The repository's own CFLAGS (Makefile.gnu), minus -Werror, plus the hook guard."""
+    v = make_vars(["CFLAGS"])["CFLAGS"]
+    flags = [f for f in v if f != "-Werror"]
+    if not flags:
+        return BASE_CFLAGS
+    return " ".join(flags) + " " + GUARD
+
+
 def build(flavour):
     cc, cflags, ldx = FLAVOURS[flavour]
+    cflags = cflags.replace(BASE_CFLAGS, repo_cflags())
     bdir = os.path.join(BUILD, flavour)
     os.makedirs(bdir, exist_ok=True)
     lock = open(os.path.join(BUILD, flavour + ".lock"), "w")
